@@ -130,6 +130,10 @@ pub fn serialize_witness(rln_witness: &RLNWitnessInput) -> Result<Vec<u8>> {
 pub fn deserialize_witness(serialized: &[u8]) -> Result<(RLNWitnessInput, usize)> {
     let mut all_read: usize = 0;
 
+    if serialized.len() < 3 * fr_byte_size() {
+        return Err(Report::msg("serialized witness is too short"));
+    }
+
     let (identity_secret, read) = bytes_le_to_fr(&serialized[all_read..]);
     all_read += read;
 
@@ -146,6 +150,10 @@ pub fn deserialize_witness(serialized: &[u8]) -> Result<(RLNWitnessInput, usize)
 
     let (identity_path_index, read) = bytes_le_to_vec_u8(&serialized[all_read..])?;
     all_read += read;
+
+    if serialized.len() - all_read < 2 * fr_byte_size() {
+        return Err(Report::msg("serialized witness is too short"));
+    }
 
     let (x, read) = bytes_le_to_fr(&serialized[all_read..]);
     all_read += read;
@@ -181,6 +189,11 @@ pub fn proof_inputs_to_rln_witness(
 ) -> Result<(RLNWitnessInput, usize)> {
     let mut all_read: usize = 0;
 
+    // identity_secret<32> | id_index<8> | user_message_limit<32> | message_id<32> | external_nullifier<32> | signal_len<8>
+    if serialized.len() < 4 * fr_byte_size() + 16 {
+        return Err(Report::msg("serialized proof input is too short"));
+    }
+
     let (identity_secret, read) = bytes_le_to_fr(&serialized[all_read..]);
     all_read += read;
 
@@ -203,9 +216,12 @@ pub fn proof_inputs_to_rln_witness(
     ))?;
     all_read += 8;
 
+    if signal_len > serialized.len() - all_read {
+        return Err(Report::msg("signal length exceeds input size"));
+    }
     let signal: Vec<u8> = serialized[all_read..all_read + signal_len].to_vec();
 
-    let merkle_proof = tree.proof(id_index).expect("proof should exist");
+    let merkle_proof = tree.proof(id_index)?;
     let path_elements = merkle_proof.get_path_elements();
     let identity_path_index = merkle_proof.get_path_index();
 
